@@ -7532,7 +7532,15 @@ class SFTPServer:
 
         file_obj = cast(_SFTPFileObj, file_obj)
         file_obj.seek(offset)
-        return file_obj.write(data)
+
+        # Files are opened unbuffered, so a write may be partial
+        view = memoryview(data)
+        written = 0
+
+        while written < len(data):
+            written += file_obj.write(view[written:])
+
+        return written
 
     def lstat(self, path: bytes) -> MaybeAwait[_SFTPOSAttrs]:
         """Get attributes of a file, directory, or symlink
